@@ -179,6 +179,9 @@ def body(chk):
     run_lane(chk, AllocStepR, (K,), bounds={'counter': 'all of 0..=2^31-1 (symbolic)', 'in-use set': 'arbitrary (z3 array)', 'consecutive occupied successors': f'< {K + 1} (beyond: assumed free, recorded as cut)'},
              selftest=False, need_regions=('skipped-0', 'skipped-1', f'skipped-{K}'))
     lock_discipline(chk)
+    from . import driver
+    run_lane(chk, driver.DriverStep, ('C05', 2, 1), bounds={'driver step': 'release sites: result delivery (receiver alive or gone), scrub, Abandon, search Done / dead item receiver; every other entry of the in-use set unchanged'}, selftest=False,
+             need_regions=('scrub', 'resp', 'op-abandon', 'op-search'))
     # concrete differential vectors
     cases = [{'cmd': 'msgid', 'last': l, 'inuse': u} for l, u in [(0, []), (5, [6, 7]), (MAX, [1, 2]), (MAX - 1, [MAX]), (MAX - 2, [MAX - 1, MAX, 1]), (7, [9])]]
     nat = native(cases)
@@ -199,7 +202,7 @@ def body(chk):
     chk.assumptions += [
         'one inductive step from an arbitrary pre-state; concurrent callers are a sequence of such steps because the whole body runs under the msgmap mutex (guard liveness checked syntactically on the MIR, an assumption not a solver fact)',
         f'fewer than {K + 1} consecutive cyclic successors of the counter are occupied (cut recorded when hit); the "no free slot" assertion needs all 2^31-1 IDs in use and is outside',
-        'that the in-use set contains every outstanding ID (release sites remove only their own ID) is the business of C13/C01 (async lane)',
+        'release sites: one iteration of the driver from an arbitrary pre-state shows each site removes exactly the ID it is about (lane B3, shared with C13)',
     ]
 
 
